@@ -102,19 +102,21 @@ theorem agree_records_ServiceRec : agrees (recordsW ServiceRec.w) (recordsW Serv
 open Packs.Irregular in
 theorem agree_CounterPack1 : agrees Packs.Irregular.CounterPack1.w Packs.Irregular.CounterPack1.r = true := by decide
 
-def smBaseReader : L := Packs.Irregular.SMBasePack.r CpuLinux.r MemoryLinux.r CpuWindow.r MemoryWindow.r
+/-- both sides transcribed: `SMBasePack.w Cpu Memory` (dynamic dispatch: the layouts of the concrete types are
+    parameters) pinned to the OS value, against the reader that binds OS and switches on it -/
+def smBaseReader : L := SMBasePack.r
 /-- SMBasePack for each OS class the reader knows (Cpu/CpuCore/Memory of the matching layout) -/
-theorem agree_SMBasePack_linux : agrees (Packs.Irregular.SMBasePack.w 1 CpuLinux.w MemoryLinux.w) smBaseReader = true := by decide
-theorem agree_SMBasePack_window : agrees (Packs.Irregular.SMBasePack.w 2 CpuWindow.w MemoryWindow.w) smBaseReader = true := by decide
-theorem agree_SMBasePack_osx : agrees (Packs.Irregular.SMBasePack.w 3 CpuLinux.w MemoryLinux.w) smBaseReader = true := by decide
-theorem agree_SMBasePack_hpux : agrees (Packs.Irregular.SMBasePack.w 4 CpuLinux.w MemoryLinux.w) smBaseReader = true := by decide
-theorem agree_SMBasePack_aix : agrees (Packs.Irregular.SMBasePack.w 5 CpuLinux.w MemoryLinux.w) smBaseReader = true := by decide
+theorem agree_SMBasePack_linux : agrees ((SMBasePack.w CpuLinux.w MemoryLinux.w).pin "OS" 1) smBaseReader = true := by decide
+theorem agree_SMBasePack_window : agrees ((SMBasePack.w CpuWindow.w MemoryWindow.w).pin "OS" 2) smBaseReader = true := by decide
+theorem agree_SMBasePack_osx : agrees ((SMBasePack.w CpuLinux.w MemoryLinux.w).pin "OS" 3) smBaseReader = true := by decide
+theorem agree_SMBasePack_hpux : agrees ((SMBasePack.w CpuLinux.w MemoryLinux.w).pin "OS" 4) smBaseReader = true := by decide
+theorem agree_SMBasePack_aix : agrees ((SMBasePack.w CpuLinux.w MemoryLinux.w).pin "OS" 5) smBaseReader = true := by decide
 /-- known finding `SMBasePack.OS:unsupported-os`: for OS_SUNOS / OPENBSD / FREEBSD (6, 7, 8) the reader has no
     case: what `Write` emits for Cpu / CpuCore / Memory is not consumed -/
 theorem finding_SMBasePack_unsupported_os :
-    agrees (Packs.Irregular.SMBasePack.w 6 CpuLinux.w MemoryLinux.w) smBaseReader = false ∧
-    agrees (Packs.Irregular.SMBasePack.w 7 CpuLinux.w MemoryLinux.w) smBaseReader = false ∧
-    agrees (Packs.Irregular.SMBasePack.w 8 CpuLinux.w MemoryLinux.w) smBaseReader = false := by decide
+    agrees ((SMBasePack.w CpuLinux.w MemoryLinux.w).pin "OS" 6) smBaseReader = false ∧
+    agrees ((SMBasePack.w CpuLinux.w MemoryLinux.w).pin "OS" 7) smBaseReader = false ∧
+    agrees ((SMBasePack.w CpuLinux.w MemoryLinux.w).pin "OS" 8) smBaseReader = false := by decide
 
 theorem agree_StatGeneralPack : agrees Packs.Irregular.StatGeneralPack.l Packs.Irregular.StatGeneralPack.l = true := by decide
 theorem agree_StatGeneralPack1 : agrees Packs.Irregular.StatGeneralPack1.l Packs.Irregular.StatGeneralPack1.l = true := by decide
@@ -127,13 +129,14 @@ theorem CounterPack1_reader_tailFree : Packs.Irregular.CounterPack1.r.tailFree =
     whole pack travels in: at the pack level a strict prefix still fails (the blob is cut short) -/
 theorem SMBasePack_reader_tailFree : smBaseReader.tailFree = true := by decide
 
-/-! ### packs with a hand-written writer layout: the transcribed reader must agree with it -/
+/-! ### packs whose bodies are transcribed up to a few statements ("gaps", parameters of the generated layout,
+    filled in by hand in Golib/Packs/Hand.lean and pinned by their text): both sides must agree -/
 theorem agree_TagCountPack : agrees Packs.Hand.TagCountPack.w TagCountPack.r = true := by decide
 theorem agree_TagLogPack : agrees Packs.Hand.TagLogPack.w TagLogPack.r = true := by decide            -- D22
 theorem agree_LogSinkPack : agrees Packs.Hand.LogSinkPack.w LogSinkPack.r = true := by decide
-theorem agree_ParamPack : agrees Packs.Hand.ParamPack.l Packs.Hand.ParamPack.l = true := by decide
+theorem agree_ParamPack : agrees Packs.Hand.ParamPack.w Packs.Hand.ParamPack.r = true := by decide
 theorem agree_ExtensionPack : agrees Packs.Hand.ExtensionPack.w Packs.Hand.ExtensionPack.r = true := by decide
-theorem agree_EventPack_wire : agrees Packs.Hand.EventPack.l Packs.Hand.EventPack.l = true := by decide
+theorem agree_EventPack_wire : agrees Packs.Hand.EventPack.w Packs.Hand.EventPack.r = true := by decide
 
 /-! ### the registry -/
 
